@@ -67,6 +67,7 @@ def run(chk, rules=None, as_prop=None):
     chk.rule("G5", "no guard fires on the element-wise / single-summarize / final-slice class of pipelines")
     chk.rule("G6", "check_subquery: alias search, stop set, re-test, SubqueryError; assertions hold for every caller")
     chk.rule("G8", "the function type (element-wise / aggregate / window) of a composite expression accounts for every child: no child's ftype() is computed and discarded inside an ftype method")
+    chk.rule("G6r", "check_subquery: every return of a rebuilt chain passes through a requires_subquery re-test (must-pass-through)")
     chk.rule("G7", "SqlImpl.compile_ast materialises SubqueryMarker as a subquery and restarts the query state")
 
     cache = repo.mod("pipe.cache")
@@ -272,8 +273,30 @@ def _check_subquery(chk, sym):
         chk.ob("G6", pm, loop, f"search stops at {sorted(stop) if stop else None}", stop is not None and {"SubqueryMarker", "Join"} <= stop,
                "the alias search continues past a join / an earlier subquery marker: an alias inside another input or an "
                "already materialised subquery would be used")  # fmt: skip
-        chk.ob("G6", pm, loop, "alias found -> SubqueryMarker inserted and requires_subquery re-tested", marker and retest,
-               "check_subquery accepts an alias without re-testing the verb against the table behind the marker")  # fmt: skip
+        # must-pass-through (a path rule, not a spelling rule): every `return <rebuilt tables>` inside the search loop is
+        # preceded, in its own block, by an `if <..>.requires_subquery(..): <leave>` - the alias only helps if the verb no
+        # longer needs a subquery on top of the marker
+        from ..source import enclosing_function as _encl
+
+        rets = [n for n in ast.walk(loop) if isinstance(n, ast.Return) and n.value is not None and _encl(n) is f]
+        guarded = []
+        for r_ in rets:
+            blk = None
+            for owner in ast.walk(loop):
+                for field in ("body", "orelse"):
+                    b_ = getattr(owner, field, None)
+                    if isinstance(b_, list) and r_ in b_:
+                        blk = b_
+            pre = blk[: blk.index(r_)] if blk else []
+            guarded.append(any(
+                isinstance(st, ast.If) and any(isinstance(c, ast.Call) and isinstance(c.func, ast.Attribute) and c.func.attr == "requires_subquery" for c in ast.walk(st.test))
+                and any(isinstance(x, (ast.Break, ast.Continue, ast.Raise)) for x in st.body)
+                for st in pre
+            ))
+        chk.ob("G6r", pm, loop, "alias found -> SubqueryMarker inserted and requires_subquery re-tested before the rebuilt table is returned",
+               marker and bool(rets) and all(guarded),
+               "check_subquery accepts an alias without re-testing the verb against the table behind the marker: a conflict that arises "
+               "after the alias (e.g. alias >> slice_head >> filter) is folded into one SELECT instead of raising SubqueryError")  # fmt: skip
     # A16: assertions about the verb class on the is_right path hold for every caller
     binary = sorted(c.name for c in sym.verb_classes() if "right" in c.all_fields())
     callers = set()
